@@ -53,6 +53,8 @@ def gen_c16(rng, tier, n):
         names = list(range(1, rng.choice([3, 4, 5, 8]) + 1))
         if rng.random() < 0.2:
             names += [101, 102, 103]
+        if rng.random() < 0.12:
+            names = [90, 91, 92, 93, 94]       # "a", "a->b", "b->c", "c", "b": names containing an arrow
         lines = []
         if rng.random() < 0.3:
             # upcasters handed to New as options (same validation as a registration; a refusal is silent): often a ring
@@ -83,8 +85,14 @@ def gen_c16(rng, tier, n):
             k = rng.choice([2, 3]); ring = rng.sample(names, k); sink = rng.choice([t for t in names if t not in ring] or [ring[0]])
             for j, a in enumerate(ring):
                 lines.append("reg %d %d %d 0 %d 0" % (a, sink, ring[(j + 1) % k], 60 + j))
+        if names[0] == 90:
+            # ("a->b" -> "c"), ("b->c" -> "a"), then ("a" -> "b->c") closes a cycle although "a"+"->"+"b->c" reads like the first pair
+            lines += ["reg 91 93 93 0 71 0", "reg 92 90 90 0 72 0", "reg 90 92 92 0 73 0", "reg 93 91 91 0 74 0"]
         for t in names:
             lines.append("replay 9 9 %d 1 %d" % (t, rng.choice([0, 0, 4])))
+        # the registry is still usable afterwards (no lock left behind by the replays)
+        lines.append("reg %d %d %d 0 88 0" % (rng.choice(names), rng.choice(names), rng.choice(names)))
+        lines.append("replay 9 9 %d 1 0" % rng.choice(names))
         cases.append(lines)
     # racing registrations of opposite edges (implementation-side judge: never both accepted)
     for _ in range(3 if tier == "quick" else 30):
@@ -142,7 +150,14 @@ def gen_c17(rng, tier, n):
                 lines.append("reg %d %d %d 1 77 0" % (names[-1], 99, 99))      # a failing upcaster at the end of the chains
             elif x < 0.7:
                 lines.append("clear")
+                if rng.random() < 0.6:
+                    # the registry is filled again after the clear, with a failing step: it is still reported
+                    a, b = rng.sample(names[:k], 2)
+                    lines.append("reg %d %d %d 1 78 0" % (t, b if b != t else a, b if b != t else a))
             lines.append("replayagain")
+        if len(names) > k:
+            # a stored payload of the typed source that is a JSON value followed by garbage: the typed step fails
+            lines.append("replay 40 7300 101 %d! %d" % (rng.randint(0, 9), rng.choice([0, 3])))
         if len(names) > k:
             # the same typed source replayed again with the optional field absent / present
             for j in range(3):
